@@ -173,7 +173,7 @@ PROPS = {
         "level": "proof",
         "lean_modules": ["RaftVerif.Properties.C17"],
         "engines": [E4("lease", 60, 500), E3_EL],
-        "explanation": "Section-level proof: lease arithmetic (valid strictly before renewal time + duration), renewal only through a quorum of voter replies of the current term (C05 lemmas), a lease read is served with data only under a valid lease, new leaders and followers hold no lease. The freshness conclusion under lease + delay < election timeout is tied by " + CLUSTER_NOTE + " with the scheduler enforcing the delay bound, with and without non-voters.",
+        "explanation": "Full proof under the property's timing assumption, on the timed replication-layer model with leases (Model/ReplLease.lean): in every timely run (a node votes only ET after it last answered a replication request; a leader uses an answer only within D of building the request; the lease runs LD from the moment a round reaches its quorum; LD + D <= ET) there is no leader of a later term while a lease is valid (C17_no_later_leader_under_lease), hence a read answered under a valid lease contains every commit made before it was registered (C17_lease_read_fresh); non-vacuity by a concrete timely run with a valid lease. Section level: lease arithmetic (valid strictly before renewal time + duration), renewal only through a quorum of voter replies of the current term (C05 lemmas), a lease read is served with data only under a valid lease, new leaders and followers hold no lease. The freshness conclusion under lease + delay < election timeout is tied by " + CLUSTER_NOTE + " with the scheduler enforcing the delay bound, with and without non-voters.",
         "assumptions": ["perfect shared virtual clock; delay bound enforced by the scheduler (150 ms with lease 100 ms, election timeout 300 ms)"],
     },
     "C06": {
